@@ -725,6 +725,28 @@ func (t *TypeGenerator) disjointWithDefinition() *codegen.Function {
 		fmt.Sprintf("%s returns true if the other provided type is disjoint with the %s type.", t.disjointWithFnName(), t.TypeName()))
 }
 
+// serializeAssignment returns the statements that put a serialized property
+// into the map under its name.
+func (t *TypeGenerator) serializeAssignment(prop Property) jen.Code {
+	name := jen.Id(codegen.This()).Dot(t.memberName(prop)).Dot(nameMethod).Call()
+	if !prop.HasNaturalLanguageMap() {
+		return jen.Id("m").Index(name).Op("=").Id("i")
+	}
+	// A language map is written under the 'Map' spelling. When the document
+	// gave the map under the plain spelling next to a 'Map' member of its
+	// own, that member is kept with the unknown ones: write the property
+	// back where it was read so that neither is lost.
+	return jen.Id("name").Op(":=").Add(name).Line().If(
+		jen.List(
+			jen.Id("_"),
+			jen.Id("taken"),
+		).Op(":=").Id(codegen.This()).Dot(unknownMember).Index(jen.Id("name")),
+		jen.Id("taken").Op("&&").Qual("strings", "HasSuffix").Call(jen.Id("name"), jen.Lit("Map")),
+	).Block(
+		jen.Id("name").Op("=").Qual("strings", "TrimSuffix").Call(jen.Id("name"), jen.Lit("Map")),
+	).Line().Id("m").Index(jen.Id("name")).Op("=").Id("i")
+}
+
 // serializationMethod returns the method needed to serialize a TypeGenerator as
 // a property.
 func (t *TypeGenerator) serializationMethod() (ser *codegen.Method) {
@@ -746,7 +768,7 @@ func (t *TypeGenerator) serializationMethod() (ser *codegen.Method) {
 				).Else().If(
 					jen.Id("i").Op("!=").Nil(),
 				).Block(
-					jen.Id("m").Index(jen.Id(codegen.This()).Dot(t.memberName(prop)).Dot(nameMethod).Call()).Op("=").Id("i"),
+					t.serializeAssignment(prop),
 				),
 			).Line())
 	}
